@@ -21,7 +21,7 @@ pub(crate) struct C18 {
     pub id: &'static str,
 }
 
-const TEMPLATES: &[&str] = &["nick_race_unreg", "first_join", "limit_slot", "oper_in_flight", "kick_part_nick", "msg_streams", "nick_race_reg", "invite_join", "password_reg_race", "mixed", "random", "random", "random", "random", "topic_mode_race", "kill_vs_leave", "leave_vs_nick_claim", "kill_vs_leave", "leave_vs_nick_claim", "counter_race"];
+const TEMPLATES: &[&str] = &["nick_race_unreg", "first_join", "limit_slot", "oper_in_flight", "kick_part_nick", "msg_streams", "nick_race_reg", "invite_join", "password_reg_race", "mixed", "random", "random", "random", "random", "topic_mode_race", "kill_vs_leave", "leave_vs_nick_claim", "kill_vs_leave", "leave_vs_nick_claim", "counter_race", "password_burst", "reader_vs_writer", "reader_vs_writer"];
 
 fn esc_lines(v: &[String]) -> String {
     v.join("\u{1e}")
@@ -64,14 +64,23 @@ impl Check for C18 {
         cfg.operators.push(OperCfg { name: "root".into(), password: "rootpw".into(), mask: None });
         // as a component of another property's check only the templates built around that property's objects are used
         let tmpl_pool: Vec<&str> = match self.id {
-            "C02" => vec!["nick_race_unreg", "nick_race_reg", "password_reg_race", "nick_race_unreg"],
-            "C04" => vec!["kick_part_nick", "leave_vs_nick_claim", "first_join", "kill_vs_leave"],
+            "C02" => vec!["nick_race_unreg", "nick_race_reg", "password_reg_race", "nick_race_unreg", "password_burst"],
+            "C03" => vec!["password_burst", "password_reg_race", "nick_race_unreg", "password_burst"],
+            "C07" => vec!["limit_slot", "invite_join", "first_join", "topic_mode_race"],
+            "C08" => vec!["topic_mode_race", "kick_part_nick", "mixed", "topic_mode_race"],
+            "C09" => vec!["kick_part_nick", "invite_join", "topic_mode_race", "leave_vs_nick_claim"],
+            "C10" => vec!["msg_streams", "topic_mode_race", "mixed", "kill_vs_leave"],
+            "C11" => vec!["oper_in_flight", "kill_vs_leave", "counter_race", "oper_in_flight"],
+            "C15" => vec!["nick_race_reg", "leave_vs_nick_claim", "kick_part_nick", "password_reg_race"],
+            "C16" => vec!["first_join", "kill_vs_leave", "leave_vs_nick_claim", "kick_part_nick"],
+            "C04" => vec!["kick_part_nick", "leave_vs_nick_claim", "first_join", "kill_vs_leave", "reader_vs_writer"],
+            "C12" => vec!["reader_vs_writer"],
             "C01" => vec!["msg_streams", "kick_part_nick", "leave_vs_nick_claim", "msg_streams"],
             "C19" => vec!["oper_in_flight", "kill_vs_leave", "counter_race", "limit_slot", "random", "counter_race"],
             _ => TEMPLATES.to_vec(),
         };
         let tmpl = tmpl_pool[(idx as usize) % tmpl_pool.len()];
-        if tmpl == "password_reg_race" || r.chance(1, 6) {
+        if tmpl == "password_reg_race" || tmpl == "password_burst" || r.chance(1, 6) {
             cfg.password = Some("srvpw".into());
         }
         cfg.max_joins = [None, None, Some(3)][r.below(3)];
@@ -126,6 +135,26 @@ impl Check for C18 {
                     scripts.push((regs[0], vec![format!("WHOIS {}", dup), format!("ISON {}", dup)]));
                 }
             }
+            "password_burst" => {
+                // several registrations with right and wrong passwords verified at the same time, distinct nicknames:
+                // each is decided by the password it supplied itself
+                let k = r.range(2, 4);
+                let right = cfg.password.clone().unwrap_or_else(|| "srvpw".to_string());
+                for i in 0..k {
+                    let c = g.open_conn();
+                    let pw = match r.below(4) {
+                        0 | 1 => right.clone(),
+                        2 => format!("{}x", right),
+                        _ => "wrongpw".to_string(),
+                    };
+                    let mut s = vec![format!("PASS {}", pw), format!("NICK pb{}", i), format!("USER pb{} 0 * :Burst {}", i, i)];
+                    s.push("JOIN #race".to_string());
+                    scripts.push((c, s));
+                }
+                if !regs.is_empty() {
+                    scripts.push((regs[0], vec!["ISON pb0 pb1 pb2 pb3".to_string(), "LUSERS".to_string()]));
+                }
+            }
             "nick_race_reg" => {
                 if regs.len() >= 2 {
                     let target = format!("prize{}", r.below(2));
@@ -158,6 +187,24 @@ impl Check for C18 {
                     if regs.len() >= 3 {
                         scripts.push((regs[2], vec![format!("WHOIS {}", nick_of(&g, regs[0])), "LUSERS".to_string()]));
                     }
+                }
+            }
+            "reader_vs_writer" => {
+                // multi-target queries (answered from the state in several steps if the server is careless) racing the
+                // writers that change what they show: +i/-i, +s, NICK, JOIN/PART
+                if regs.len() >= 3 {
+                    let n1 = nick_of(&g, regs[1]);
+                    let n2 = nick_of(&g, regs[2]);
+                    g.say(regs[1], "JOIN #rw1,#rw2");
+                    g.say(regs[2], "JOIN #rw2");
+                    let q = [format!("WHOIS {},{}", n1, n2), "WHOIS *".to_string(), "NAMES #rw1,#rw2".to_string(), "WHO *".to_string(), "NAMES".to_string(), "LIST".to_string()];
+                    let q1 = q[r.below(q.len())].clone();
+                    let q2 = q[r.below(q.len())].clone();
+                    scripts.push((regs[0], vec![q1, q2]));
+                    let w1 = [format!("MODE {} +i", n1), "NICK rwmoved".to_string(), "MODE #rw1 +s".to_string(), "PART #rw2".to_string()];
+                    scripts.push((regs[1], vec![w1[r.below(w1.len())].clone(), w1[r.below(w1.len())].clone()]));
+                    let w2 = [format!("MODE {} +i", n2), "JOIN #rw1".to_string(), "PART #rw2".to_string(), "AWAY :gone".to_string()];
+                    scripts.push((regs[2], vec![w2[r.below(w2.len())].clone()]));
                 }
             }
             "counter_race" => {
